@@ -48,10 +48,9 @@ def interpScalar (ext : Ext) (dt : DataType) (x : SVal) : R LVal :=
       | .bytes b => if (b.length : Int) = n then .ok (.bin b) else fail "wrong length"
       | _ => fail "not bytes"
     | .dictionary _ _ =>
-      match x with
-      | .str s => .ok (.str (strBytes s))
-      | .unitVariant _ _ vn => .ok (.str (strBytes vn))
-      | _ => fail "not a string"
+      match scalarToString ext x with
+      | some s => .ok (.str (strBytes s))
+      | none => fail "not a string"
     | .null =>
       match x with
       | .unitStruct _ => .ok .null
